@@ -1,7 +1,8 @@
 /- driver family `mesh`: open edges and connected subsets of a face list -/
 import MagpyVerif.Model.Mesh
 import MagpyVerif.Model.MeshPipeline
-import Driver.Parse
+import MagpyVerif.Model.MeshUnique
+import Driver.KernFam
 
 namespace Driver.MeshFam
 open MagpyVerif.Mesh Driver
@@ -42,6 +43,19 @@ def run : P String := do
       let fixed := fixOrientation seed fs
       pure (s!"inwards left={st.indices.length} mask " ++ String.join (m.map fun b => if b then "1" else "0") ++ " faces " ++
         " ".intercalate (fixed.map fun f => s!"{f.1},{f.2.1},{f.2.2}"))
+  | "unique" => do
+      -- the soup -> (vertices, faces) glue of TriangularMesh.from_mesh / from_triangles in IEEE double (Model/MeshUnique.lean):
+      -- n triangles as 9 bit patterns each; out: the unique rows (bit patterns), the faces, and whether vertices[faces] == soup
+      -- row by row under the element type's `==` (what `from_mesh_roundtrip` states; false only with NaN corners)
+      let n ← nat
+      let soup ← many n (do pure ((← KernFam.v3), (← KernFam.v3), (← KernFam.v3)))
+      let c := MagpyVerif.Kern.RowCmp.float
+      let (vs, fs) := MagpyVerif.Kern.fromMesh c soup
+      let back := MagpyVerif.Kern.meshArray vs fs
+      let same := back.length == soup.length && (back.zip soup).all fun (a, b) =>
+        MagpyVerif.Kern.rowEq c a.1 b.1 && MagpyVerif.Kern.rowEq c a.2.1 b.2.1 && MagpyVerif.Kern.rowEq c a.2.2 b.2.2
+      pure (s!"unique {vs.length} " ++ " ".intercalate (vs.map KernFam.out) ++ " faces " ++
+        " ".intercalate (fs.map fun f => s!"{f.1},{f.2.1},{f.2.2}") ++ s!" roundtrip {if same then 1 else 0}")
   | t => throw s!"unknown mesh command {t}"
 
 def step (line : String) : String :=
